@@ -5,7 +5,7 @@
     after it ([None] when the vt100 crate cannot run it: it overflows on 1-row terminals), and
     all rows incl. scroll-back + index of the first visible row of the harness' reference
     terminal [sysrun::Vt] (which the screen oracles use).  Rows are right-trimmed on both sides. *)
-From IndModel Require Export SysCheck Term.
+From IndModel Require Export SysCheck Term SingleBar.
 Local Open Scope nat_scope.
 
 Fixpoint drop_sp (r : row) : row :=
@@ -22,8 +22,12 @@ Fixpoint drop_empty (rs : list row) : list row :=
   end.
 Definition drop_trailing_empty (rs : list row) : list row := rev (drop_empty (rev rs)).
 
+(** [SysCase c verdict left_fits]: a single-bar history with what the screen oracle of bin c01 said about
+    it on the implementation: verdict 0 = every check passed, 1 = it failed with the class of the open
+    finding 'empty-line-after-text-only-draw-swallowed' (D28), 2 = anything else (other class, panic);
+    [left_fits] = the oracle stopped at a painted frame taller than the terminal (outside the proviso). *)
 Inductive c01case :=
-| SysCase (c : syscase)
+| SysCase (c : syscase) (verdict : N) (left_fits : bool)
 | TermCase (W H : N) (ops : list termop) (vis : option (list text)) (cursor : N * N)
            (all : list text) (top : N).
 
@@ -41,8 +45,50 @@ Definition term_check (W H : N) (ops : list termop) (vis : option (list text)) (
   && list_eqb text_eqb (drop_trailing_empty (map rtrim (all_rows tm))) all
   && N.eqb (N.of_nat (t_top tm)) top.
 
+(** The SPEC side of C01_screen_partial evaluated on the observed case: the hypotheses [hist_okb], [fitsb]
+    of the theorem (SingleBar.v) on the case's own history, cross-checked with the oracle verdict:
+    - both hypotheses hold  ->  the oracle passed (the theorem's conclusion, as judged on the real code);
+    - the oracle blamed D28 ->  [hist_okb] is false (the excluded class really is the one the oracle names);
+    - the oracle left Fits  ->  [fitsb] is false;  it passed without leaving Fits -> [fitsb] is true
+      (the oracle's own frame heights agree with the model's [visual_line_count]). *)
+Definition c01_spec_check (c : syscase) (verdict : N) (left_fits : bool) : bool :=
+  let s0 := case_init c in
+  let hk := hist_okb (c_W c) (c_H c) s0 (ghost_for term_init) (c_ops c) in
+  let ft := fitsb (c_W c) (c_H c) s0 (c_ops c) in
+  (if hk && ft then N.eqb verdict 0 else true)
+  && (if N.eqb verdict 1 then negb hk else true)
+  && (if left_fits then negb ft else true)
+  && (if N.eqb verdict 0 && negb left_fits then ft else true).
+
 Definition c01_check (c : c01case) : bool :=
   match c with
-  | SysCase c => sys_check c
+  | SysCase c v lf => sys_check c && c01_spec_check c v lf
   | TermCase W H ops vis cursor all top => term_check W H ops vis cursor all top
+  end.
+
+(* ------------------------------------------------------------------ entry point of the C19 check *)
+(** [C19Sys c]: any drawing-system case (MultiProgress histories): trace correspondence only.
+    [C19Single c verdict]: a single standalone bar on a terminal that may be LOWER than its frame, with the
+    verdict of the screen oracle (sysoracle.rs) on the implementation: 0 = every check passed,
+    1 = class 'empty-line-after-text-only-draw-swallowed' (D28), 3 = class
+    'height-cut-leaves-cursor-mid-row' (D14), 2 = anything else.  The hypotheses of
+    C19_erase_exact_partial, [hist_okb] and [no_text_cutb], are evaluated on the case's own history:
+    - both hold -> the oracle passed (screen = log ++ fitting prefix after every painted call);
+    - the oracle blamed D28 -> [hist_okb] is false;  it blamed D14 -> [no_text_cutb] is false. *)
+Inductive c19case :=
+| C19Sys (c : syscase)
+| C19Single (c : syscase) (verdict : N).
+
+Definition c19_spec_check (c : syscase) (verdict : N) : bool :=
+  let s0 := case_init c in
+  let hk := hist_okb (c_W c) (c_H c) s0 (ghost_for term_init) (c_ops c) in
+  let nc := no_text_cutb (c_W c) (c_H c) s0 (c_ops c) in
+  (if hk && nc then N.eqb verdict 0 else true)
+  && (if N.eqb verdict 1 then negb hk else true)
+  && (if N.eqb verdict 3 then negb nc else true).
+
+Definition c19_check (c : c19case) : bool :=
+  match c with
+  | C19Sys c => sys_check c
+  | C19Single c v => sys_check c && c19_spec_check c v
   end.
